@@ -288,13 +288,24 @@ func c01ReaderShape(p *Prog, rp *ssa.Function) readerShape {
 			}
 		}
 	})
-	if rs.pkt == nil {
-		rs.err = "the packet is not decoded[0:n] with n the length Decode returned"
-		return rs
+	// the packet is read either through pkt = decoded[0:n] or straight from the decode buffer (whose
+	// first n bytes Decode just wrote); in both cases offsets are relative to the start of that buffer
+	isBase := func(v ssa.Value) bool {
+		v = unspill(v)
+		if rs.pkt != nil && v == ssa.Value(rs.pkt) {
+			return true
+		}
+		if v == unspill(buf) {
+			return true
+		}
+		if sl, ok := unspill(buf).(*ssa.Slice); ok && sl.Low == nil && v == unspill(sl.X) {
+			return true
+		}
+		return false
 	}
 	us := p.CallsIn(rp, "(encoding/binary.bigEndian).Uint16")
 	for _, u := range us {
-		if sl, ok := unspill(u.Common().Args[1]).(*ssa.Slice); ok && unspill(sl.X) == ssa.Value(rs.pkt) {
+		if sl, ok := unspill(u.Common().Args[1]).(*ssa.Slice); ok && isBase(sl.X) {
 			// BE16 reads the first two bytes of its argument: pkt[1:] and pkt[1:h], h >= 3, are the same field
 			if k, ok := intConst(sl.Low); ok && k == 1 {
 				if sl.High == nil {
@@ -306,19 +317,19 @@ func c01ReaderShape(p *Prog, rp *ssa.Function) readerShape {
 		}
 	}
 	if rs.length == nil {
-		rs.err = "the payload length is not binary.BigEndian.Uint16(pkt[1:])"
+		rs.err = "the payload length is not binary.BigEndian.Uint16(pkt[1:]) of the decoded frame"
 		return rs
 	}
 	allInstrs(rp, func(in ssa.Instruction) {
 		switch x := in.(type) {
 		case *ssa.UnOp:
-			if ia, ok := x.X.(*ssa.IndexAddr); ok && x.Op == token.MUL && unspill(ia.X) == ssa.Value(rs.pkt) {
+			if ia, ok := x.X.(*ssa.IndexAddr); ok && x.Op == token.MUL && isBase(ia.X) {
 				if k, ok := intConst(ia.Index); ok && k == 0 {
 					rs.typ = x
 				}
 			}
 		case *ssa.Slice:
-			if unspill(x.X) == ssa.Value(rs.pkt) && x.Low != nil && x.High != nil {
+			if isBase(x.X) && x.Low != nil && x.High != nil && x != rs.pkt {
 				lo := lc.Of(x.Low)
 				hi := lc.Of(x.High)
 				if lo.Equal(linConst(3)) && hi.Sub(lo).Equal(lc.Of(rs.length)) {
@@ -539,6 +550,12 @@ func c01WritePath(c *Ctx, p *Prog) {
 		// idiom B: the caller's slice is consumed prefix by prefix
 		var msg string
 		mk, n, msg = c01ChopBySlicing(p, w, b)
+		if mk == nil {
+			var msg2 string
+			if mk, n, msg2 = c01ChopByOffset(p, w, b); mk == nil {
+				msg += "; nor by the b[off:] / off += len(chunk) idiom: " + msg2
+			}
+		}
 		if mk == nil {
 			ob.Violate("the caller's bytes are chopped neither through bytes.NewBuffer(b) nor by the rem[:k] / rem = rem[k:] idiom: %s", msg)
 			return
@@ -1362,6 +1379,134 @@ func c01ChopBySlicing(p *Prog, w *ssa.Function, b *ssa.Parameter) (ssa.CallInstr
 			continue
 		}
 		return call, k, ""
+	}
+	return nil, nil, msg
+}
+
+// c01ChopByOffset recognises the offset-indexed idiom
+//
+//	for off < len(b) { chunk := b[off:] (optionally clamped chunk[:k]); makePacket(.., chunk, ..); off += len(chunk) }
+//
+// and returns the makePacket call and the len(chunk) value added to the offset.
+// The chunks concatenate to b exactly: each starts at the offset, the offset
+// advances by exactly the chunk's length in an iteration that packetised it,
+// it starts at 0, the loop is left only when off >= len(b), and the chunk is
+// not empty.
+func c01ChopByOffset(p *Prog, w *ssa.Function, b *ssa.Parameter) (ssa.CallInstruction, ssa.Value, string) {
+	bd := p.NewBounds()
+	msg := "no makePacket call takes a slice of b that starts at a loop-carried offset"
+	for _, call := range p.CallsIn(w, idMakePacket) {
+		payload := unspill(call.Common().Args[3])
+		// every alternative of the payload is b[off:...] or a prefix of it, with one and the same off
+		var off *ssa.Phi
+		okShape := true
+		var walk func(v ssa.Value, prefixOnly bool, d int)
+		walk = func(v ssa.Value, prefixOnly bool, d int) {
+			v = unspill(v)
+			if d > 6 {
+				okShape = false
+				return
+			}
+			switch x := v.(type) {
+			case *ssa.Phi:
+				for _, e := range x.Edges {
+					walk(e, prefixOnly, d+1)
+				}
+			case *ssa.Slice:
+				if unspill(x.X) == ssa.Value(b) {
+					ph, isPhi := unspill(x.Low).(*ssa.Phi)
+					if x.Low == nil || !isPhi || (off != nil && off != ph) {
+						okShape = false
+						return
+					}
+					off = ph
+					return
+				}
+				if x.Low != nil {
+					if k, isK := intConst(x.Low); !isK || k != 0 {
+						okShape = false
+						return
+					}
+				}
+				walk(x.X, true, d+1)
+			default:
+				okShape = false
+			}
+		}
+		walk(payload, false, 0)
+		if !okShape || off == nil {
+			continue
+		}
+		// off = phi(0, off + len(payload)) at a loop head
+		var lenV ssa.Value
+		okPhi := true
+		var backPreds []*ssa.BasicBlock
+		for i, e := range off.Edges {
+			pred := off.Block().Preds[i]
+			if !isBackEdge(pred, off.Block()) {
+				if k, isK := intConst(e); !isK || k != 0 {
+					okPhi = false
+				}
+				continue
+			}
+			backPreds = append(backPreds, pred)
+			bo, isBo := unspill(e).(*ssa.BinOp)
+			if !isBo || bo.Op != token.ADD {
+				okPhi = false
+				continue
+			}
+			x, y := unspill(bo.X), unspill(bo.Y)
+			if y == ssa.Value(off) {
+				x, y = y, x
+			}
+			lc, _ := callOf(y)
+			if x != ssa.Value(off) || lc == nil || p.CalleeID(lc.Common()) != "builtin:len" || unspill(lc.Common().Args[0]) != payload {
+				okPhi = false
+				continue
+			}
+			if lenV != nil && lenV != y {
+				okPhi = false
+			}
+			lenV = y
+		}
+		if !okPhi || lenV == nil || len(backPreds) == 0 {
+			msg = "the offset at " + p.InstrPos(call) + " is not off = phi(0, off + len(chunk)) with the chunk handed to makePacket"
+			continue
+		}
+		for _, bp := range backPreds {
+			if !instrDominates(call, bp.Instrs[len(bp.Instrs)-1]) {
+				msg = "an iteration can advance the offset without packetising the chunk"
+				okPhi = false
+			}
+		}
+		if !okPhi {
+			continue
+		}
+		// the loop is left towards a success return only with off >= len(b)
+		ff := p.Facts(w)
+		okExit := true
+		for _, r := range ff.SuccessReturns() {
+			okp, why := bd.Prove(w, r, func(s *scope, pr *proof) []Cons {
+				lb, ok := s.lenLin(b, pr)
+				if !ok {
+					return nil
+				}
+				return []Cons{ge(s.lin(off, pr), lb)}
+			})
+			if !okp {
+				msg = "a success return is reachable with bytes of b left (off >= len(b) not provable at " + p.InstrPos(r) + ": " + why + ")"
+				okExit = false
+			}
+		}
+		if !okExit {
+			continue
+		}
+		okp, why := bd.Prove(w, call, func(s *scope, pr *proof) []Cons { return []Cons{geC(s.lin(lenV, pr), 1)} })
+		if !okp {
+			msg = "chunk length >= 1 is not provable (" + why + ")"
+			continue
+		}
+		return call, lenV, ""
 	}
 	return nil, nil, msg
 }
